@@ -49,6 +49,20 @@ func (r *Eval) Run(ctx context.Context, script []byte) (Object, *Bytecode, error
 		return nil, nil, err
 	}
 
+	if bytecode.Main.Variadic {
+		// A script is run without arguments, its variadic parameter is an
+		// empty array as it is for VM.Run. All locals are passed as
+		// parameters below, set the value at the position of the variadic
+		// parameter instead of the last local.
+		n := bytecode.Main.NumParams
+		for len(r.Locals) < n {
+			r.Locals = append(r.Locals, Undefined)
+		}
+		if n > 0 && (r.Locals[n-1] == nil || r.Locals[n-1] == Undefined) {
+			r.Locals[n-1] = Array{}
+		}
+		bytecode.Main.Variadic = false
+	}
 	bytecode.Main.NumParams = bytecode.Main.NumLocals
 	r.Opts.Constants = bytecode.Constants
 	r.fixOpPop(bytecode)
